@@ -347,6 +347,16 @@ def run(ctx: Ctx) -> None:
     rep.rule("C17.R11", "the types a codec announces are the types its serialize_into accepts, each announced once")
     n11 = announced_types_accepted(ctx, "C17.R11")
     rep.floor("C17.R11", n11, 2)
+    rep.rule("C17.R13", "the key under which the codec of a result type is looked up names that type (its own __name__, not its metaclass's): results are written by the codec of "
+                        "their own type")
+    n13 = type_key_names_the_type(ctx, "C17.R13")
+    rep.floor("C17.R13", n13, 2)
+    from .common import kinds_not_confused
+    rep.rule("C17.R14", "codec references and type names are different kinds of key (ProtocolRef / SupportedType): the read-side table is indexed by references, the write-side table by "
+                        "type names (mypy): a legacy reference filed in the table of the type names is not a registered protocol, and the blobs that name it cannot be read")
+    n14 = kinds_not_confused(ctx, "C17.R14", ("dds.codec", "dds.codecs.builtins", "dds.codecs.databricks", "dds.store", "dds.structures_utils"),
+                             "blobs written by an older release under the reference `default.pandas_local` fail with 'Requested protocol ... is not registered' although has_blob answers True")
+    rep.floor("C17.R14", n14, 3)
     if rep.prop == "C17":
         from . import c12 as _c12
         rep.rule("C17.R10", "as C12.R1-R4: every storable result is read back equal through the object cache too (the wrapper tests fetched values against None, not for truth: a pandas frame / numpy array has no truth value; it hands the codec it was given to the wrapped store)")
@@ -356,6 +366,39 @@ def run(ctx: Ctx) -> None:
             o_.rule = "C17.R10/" + o_.rule
         for k_ in [k_ for k_ in rep.floors if k_.startswith("C12.")]:
             rep.floors["C17.R10/" + k_] = rep.floors.pop(k_)
+
+
+def type_key_names_the_type(ctx: Ctx, rule: str) -> int:
+    """`SupportedTypeUtils.from_type(t)` - the key under which the codec of a result type is looked up - is built from the type's own name
+    (`t.__name__` / `t.__qualname__`) on every return: the name of `t.__class__` / `type(t)` is the metaclass ('type' for every ordinary class), which
+    gives all the classes of a module one key - the codec registered for one of them then writes (and reads back) the values of the others"""
+    rep = ctx.report
+    prog = ctx.prog
+    f = prog.func("dds.structures_utils.SupportedTypeUtils.from_type")
+    if f is None:
+        raise AnchorError("dds.structures_utils.SupportedTypeUtils.from_type not found")
+    ps = [p_ for p_ in f.positional_params() if p_ not in ("self", "cls")]
+    if not ps:
+        raise AnchorError("from_type has no parameter")
+    t = ps[0]
+    n = 0
+    for r in f.own_nodes():
+        if not isinstance(r, ast.Return) or r.value is None:
+            continue
+        # the recursive normalisation `from_type(type(None))` is not a key
+        if isinstance(r.value, ast.Call) and unparse(r.value.func).split(".")[-1] == f.name:
+            continue
+        n += 1
+        own = [y for y in ast.walk(r.value) if isinstance(y, ast.Attribute) and y.attr in ("__name__", "__qualname__") and isinstance(y.value, ast.Name) and y.value.id == t]
+        meta = [y for y in ast.walk(r.value) if isinstance(y, ast.Attribute) and y.attr in ("__name__", "__qualname__") and not (isinstance(y.value, ast.Name) and y.value.id == t)]
+        desc = f"the type key `{unparse(r.value, 50)}` names the type itself"
+        if own and not meta:
+            rep.ok(rule, f.qname, desc, f.loc(r))
+        else:
+            rep.bad(rule, f.qname, desc, f.loc(r), [f"{f.loc(r)}: " + (f"`{unparse(meta[0], 40)}` is not the name of `{t}`" if meta else f"the key does not use `{t}.__name__`"),
+                    "a user codec registered for Point (handled type computed with from_type) is found for every class of the module: a Vector result is written by the Point codec and read "
+                    "back as a Point"], stmt_key(r), what="the codec lookup key of a type does not name the type: results are written by the codec of another type")
+    return n
 
 
 def codec_duals(ctx: Ctx, rule4: str, rule5: str) -> int:
